@@ -100,7 +100,14 @@ impl<'c> Interp<'c> {
     pub(crate) fn mon_decl(&mut self, a: &Act, d: &LocalDecl, defined_nil: bool) {
         let calls = self.calls_returned(a);
         let pos = a.base + d.slot as usize;
-        *self.mon.slot(pos) = VarMeta { uninit: defined_nil, w_act: a.act, w_calls: calls };
+        let m = VarMeta { uninit: defined_nil, w_act: a.act, w_calls: calls };
+        // a `local function` captures its own slot before it is declared here: the
+        // meta of the freshly created cell must not keep what an earlier variable
+        // in the same slot left behind
+        if let Value::Cell(c) = self.stack[pos] {
+            *self.mon.cell(c) = m;
+        }
+        *self.mon.slot(pos) = m;
     }
     pub(crate) fn mon_write_local(&mut self, a: &Act, l: &LocalRef) {
         let calls = self.calls_returned(a);
